@@ -109,11 +109,14 @@ def surface_jobs(tier):
         # integer edge values for int parameters
         for i, p in enumerate(pts):
             if p.kind == "name" and p.name == "int":
-                for alt in ["(-1)", "0", "10", "(2 ** 64)", "(-(2 ** 63))"][: (5 if tier == "thorough" else 3)]:
+                for alt in ["(-1)", "0", "(10 ** 15)", "10", "(2 ** 64)", "(-(2 ** 63))"][: (6 if tier == "thorough" else 3)]:
                     v = [x[0] for x in inh]
                     v[i] = alt
                     variants.append(v)
-        src = "".join("let s%d = %s(%s);\n" % (vi, name, ", ".join(v)) for vi, v in enumerate(variants))
+        # format specifiers for the format family
+        if name == "format" and len(pts) == 2 and pts[1].kind == "name" and pts[1].name == "str":
+            for spec in ['"10"', '".3"', '"+,.2f"', '"x"', '".1000000000"', '"1000000000000"', '"*^9"', '"e"', '"%"']:
+                variants.append([inh[0][0], spec])
         jobs.append((sig["text"], name, variants))
         k += 1
     return jobs
@@ -169,7 +172,7 @@ def run(chk, tier, seed):
         if oc in ("crash", "timeout", "missing") or oc.endswith("panic"):
             detail = {k: v for k, v in o.items() if k in ("compile", "inst", "calls", "crash", "timeout")}
             msg = json.dumps(detail)[:300]
-            loc = re.search(r"@ (/repo/src/[^\"]+)", msg)
+            loc = re.search(r"@ (/repo/src/[^\"]+)", msg) or re.search(r"@ [^\"]*/([^/\"]+-[0-9][0-9.]*/src/[^\"]+)", msg)
             chk.violation("accepted program %s: %s" % (oc, msg),
                           {"kind": "soundness", "source": j["src"], "limits": j["limits"], "observed": oc, "detail": detail},
                           finding_key="panic:" + (loc.group(1) if loc else oc))
